@@ -17,6 +17,8 @@ def gen_cfg(rng, n, topn_p=0.85):
     if rng.random() < 0.5:          # milder filters half of the time so that sets are not mostly empty
         g[5] = []
         g[3] = rng.choice([0, 0, MIL])
+    if g[3] >= 2 ** 62:             # the c02 generator also draws min_stake values around 2^63 (they belong to the C02 check);
+        g[3] = 3 * MIL              # this driver carries min_stake as a machine integer
     return g
 
 
